@@ -480,13 +480,23 @@ class _Observable(_STIXBase):
                         )
 
                 else:
-                    serializable_value = _make_json_serializable(obj_value)
+                    try:
+                        serializable_value = _make_json_serializable(obj_value)
+                    except RecursionError:
+                        raise InvalidValueError(
+                            self, key, "nested too deeply to generate an ID from",
+                        )
 
                 json_serializable_object[key] = serializable_value
 
         if json_serializable_object:
 
-            data = canonicalize(json_serializable_object, utf8=False)
+            try:
+                data = canonicalize(json_serializable_object, utf8=False)
+            except RecursionError:
+                raise InvalidValueError(
+                    self, "id", "ID contributing properties are nested too deeply",
+                )
             uuid_ = uuid.uuid5(SCO_DET_ID_NAMESPACE, data)
             id_ = "{}--{}".format(self._type, str(uuid_))
 
